@@ -249,3 +249,112 @@ def loop_var(func_node: ast.AST, iter_suffix: str) -> str:
   if len(ls) != 1:
     raise index.AnalysisError(f'expected one loop over *{iter_suffix}, found {len(ls)}')
   return ls[0][1][-1]
+
+
+def named_args(ctx, f, call: ast.Call) -> dict:
+  """parameter name -> argument expression of a call, however it is written: keyword arguments as given, positional
+  ones through the parameter list of the repository function the call resolves to (the index keeps such calls in
+  positional form - sa/normalize.py). Positional arguments of an unresolved call are not named."""
+  out = {}
+  names = ctx.repo._callee_params(f.module, f, call.func, set()) if f is not None else None  # pylint: disable=protected-access
+  if names:
+    for n, a in zip(names, call.args):
+      if not isinstance(a, ast.Starred):
+        out[n] = a
+  for k in call.keywords:
+    if k.arg is not None:
+      out[k.arg] = k.value
+  return out
+
+
+def _leaves(body: list) -> bool:
+  return bool(body) and isinstance(body[-1], (ast.Continue, ast.Break, ast.Return, ast.Raise))
+
+
+def conditions_at(fn_node: ast.AST, target: ast.AST) -> Optional[list]:
+  """The branch conditions under which `target` (a statement or an expression inside one) executes, within its
+  innermost loop or the function: [(test expression, polarity)] from the enclosing ifs AND from the guard clauses that
+  precede it (`if T: continue / return / raise / break` earlier in an enclosing block contributes (T, False)).
+  Both spellings of a condition - nesting and guard clause - give the same list. None if target is not found."""
+  def search(stmts, conds):
+    for k, st in enumerate(stmts):
+      if st is target or any(n is target for n in ast.walk(st) if not isinstance(st, (ast.FunctionDef, ast.AsyncFunctionDef, ast.ClassDef))):
+        here = list(conds)
+        for prev in stmts[:k]:
+          if isinstance(prev, ast.If) and not prev.orelse and _leaves(prev.body):
+            here.append((prev.test, False))
+          elif isinstance(prev, ast.If) and prev.orelse and _leaves(prev.body) and not _leaves(prev.orelse):
+            here.append((prev.test, False))
+          elif isinstance(prev, ast.If) and prev.orelse and _leaves(prev.orelse) and not _leaves(prev.body):
+            here.append((prev.test, True))
+        if st is target:
+          return here
+        if isinstance(st, ast.If):
+          if any(n is target for n in ast.walk(st.test)):
+            return here
+          r = search(st.body, here + [(st.test, True)])
+          if r is not None:
+            return r
+          return search(st.orelse, here + [(st.test, False)])
+        if isinstance(st, (ast.For, ast.While)):
+          if any(n is target for x in ([st.iter] if isinstance(st, ast.For) else [st.test]) for n in ast.walk(x)):
+            return here
+          r = search(st.body, [])       # conditions are collected per iteration
+          if r is not None:
+            return r
+          return search(st.orelse, here)
+        if isinstance(st, ast.Try):
+          for blk in [st.body, st.orelse, st.finalbody] + [h.body for h in st.handlers]:
+            r = search(blk, here)
+            if r is not None:
+              return r
+          return here
+        if isinstance(st, ast.With):
+          r = search(st.body, here)
+          return r if r is not None else here
+        return here
+    return None
+  return search(getattr(fn_node, 'body', []), [])
+
+
+def holds_at(fn_node: ast.AST, target: ast.AST, accepted) -> bool:
+  """Is one of the conditions of `conditions_at` (with its polarity, after normalising `not`) accepted by the
+  predicate `accepted(text)`? `text` is the unparsed condition that is TRUE when target runs."""
+  conds = conditions_at(fn_node, target)
+  if conds is None:
+    return False
+  for test, pol in conds:
+    for t in true_forms(test, pol):
+      if accepted(t):
+        return True
+  return False
+
+
+_NEGOP = {ast.Eq: ast.NotEq, ast.NotEq: ast.Eq, ast.Is: ast.IsNot, ast.IsNot: ast.Is, ast.In: ast.NotIn, ast.NotIn: ast.In,
+          ast.Lt: ast.GtE, ast.GtE: ast.Lt, ast.Gt: ast.LtE, ast.LtE: ast.Gt}
+
+
+def true_forms(test: ast.expr, polarity: bool, as_nodes: bool = False) -> list:
+  """Texts of the facts that hold when `test` evaluates to `polarity`: the condition itself (negated if needed), and
+  the conjuncts of an `and` that is true / the negated disjuncts of an `or` that is false."""
+  def neg(e):
+    if isinstance(e, ast.UnaryOp) and isinstance(e.op, ast.Not):
+      return e.operand
+    if isinstance(e, ast.Compare) and len(e.ops) == 1 and type(e.ops[0]) in _NEGOP:
+      return ast.Compare(left=e.left, ops=[_NEGOP[type(e.ops[0])]()], comparators=e.comparators)
+    return ast.UnaryOp(op=ast.Not(), operand=e)
+  e = test if polarity else neg(test)
+  out = [e]
+  if isinstance(e, ast.BoolOp) and isinstance(e.op, ast.And):
+    out += list(e.values)
+  if isinstance(e, ast.UnaryOp) and isinstance(e.op, ast.Not) and isinstance(e.operand, ast.BoolOp) and isinstance(e.operand.op, ast.Or):
+    out += [neg(v) for v in e.operand.values]
+  return out if as_nodes else [ast.unparse(x) for x in out]
+
+
+def facts_at(fn_node: ast.AST, target: ast.AST) -> list:
+  """Expressions (ast nodes) known to be true when `target` executes (see conditions_at / true_forms)."""
+  out = []
+  for test, pol in conditions_at(fn_node, target) or []:
+    out += true_forms(test, pol, as_nodes=True)
+  return out
